@@ -1057,6 +1057,34 @@ def zipAct (ns : Nat) (st : Store Value) (z : ZSt) (r : Req Skel) : Store Value 
             { outs := [mkItem data (some (ns, z.ctr))] })
   | _ => (st, z, {})
 
+/-- `Split._compute()` consumed by a caller (`list(split.compute())`): the values of every branch in turn; an
+exception of a branch ends it (what was yielded before is lost with the list) -/
+def splitPull (req : Req Skel) : Store Value → List (Branch HSt Skel Value) → ZipPull
+  | st, [] => ⟨st, [], [], false, none⟩
+  | st, b :: rest =>
+    let r := b.ops.act st b.st req
+    match r.2.2.err with
+    | some e => ⟨r.1, { b with st := r.2.1 } :: rest, [], false, some e⟩
+    | none =>
+      let q := splitPull req r.1 rest
+      ⟨q.st, { b with st := r.2.1 } :: q.brs, r.2.2.outs ++ q.vals, q.short, q.err⟩
+
+/-- a method invocation on a `Split([accumulator, …])` used through its common-type methods -/
+def splitAccAct (st : Store Value) (z : ZSt) (r : Req Skel) : Store Value × ZSt × Resp Skel :=
+  match r with
+  | .fill x =>
+    let f := splitFill true x { st := st, cc := z.cc } z.brs
+    (f.w.st, { z with cc := f.w.cc, brs := f.brs }, { stopped := f.stopped })
+  | .compute | .request =>
+    let p := splitPull r st z.brs
+    match p.err with
+    | some e => (p.st, { z with brs := p.brs }, { err := some e })
+    | none => (p.st, { z with brs := p.brs }, { outs := p.vals })
+  | _ => (st, z, {})
+
+def splitAccOps : Ops ZSt Skel Value :=
+  { act := splitAccAct, refs := fun z => z.brs.flatMap (fun b => b.ops.refs b.st) }
+
 /-- `Zip([accumulator, …])` as an object: branch number `i` is the accumulator `ks[i]` -/
 def zipOps (ks : List AccKind) : Ops ZSt Skel Value :=
   { act := zipAct (ownNs ks.length), refs := fun z => z.brs.flatMap (fun b => b.ops.refs b.st) }
